@@ -11,7 +11,7 @@ try:
     s = open(p).read()
     assert s.count(old) == 1, "pattern occurs %d times" % s.count(old)
     open(p, "w").write(s.replace(old, new))
-    r = subprocess.run(["/verif/check", prop] + extra, capture_output=True, text=True, env=dict(os.environ, VERIF_REPO=scratch))
+    r = subprocess.run([os.path.join(os.path.dirname(os.path.dirname(os.path.abspath(__file__))), "check"), prop] + extra, capture_output=True, text=True, env=dict(os.environ, VERIF_REPO=scratch))
     lines = [l for l in r.stdout.splitlines() if not l.startswith("WARNING")]
     print("\n".join(l[:400] for l in lines[-14:]))
     print("EXIT", r.returncode)
